@@ -102,6 +102,26 @@ func runC09(p *Program, e *Engine, r *Result, tier string) {
 		"an empty-event return under IN_DELETE_SELF ∧ ok(pathTable[Dir(watch.path)])")
 	// every other suppression of an event is one of the enumerated reasons (shared with C01.3)
 	c01Drops(a, df, "C09.3")
+	// (5) the handler asks the kernel for a watch only for a new directory under a recursive watch: a watch that ended
+	// (deleted or renamed away) is never re-established behind the user's back
+	nReg := 0
+	for _, v := range syscallVisits(a, w, "InotifyAddWatch") {
+		if !inHandler(v, hctx) {
+			continue
+		}
+		nReg++
+		g, bad := v.Cond.everyConj(func(c Conj) bool {
+			return c.has(func(l Lit) bool { return l.A.Kind == AkBool && !l.Neg && strings.HasSuffix(l.A.Subj, ".recurse") })
+		})
+		wit := "only under the watch's recursive flag"
+		if !g {
+			wit = "inotify_add_watch is reached from the handler under " + stripIDs(bad.String())
+		}
+		a.R.ob("C09.5", "handler:registers-only-recursive", "the event handler registers a watch only for a watch with the recursive flag (a watch that ended is not re-established)", a.P.instrPos(v.Instr), g, wit)
+	}
+	if nReg == 0 {
+		a.R.ob("C09.5", "handler:registers-only-recursive", "the event handler registers no watch in this configuration", a.P.pos(df.Handler.Pos()), true, "no inotify_add_watch reachable from the handler (recursive mode folded off)")
+	}
 	// (4) fresh entry on re-Add: shared with C12.1; a stale entry is released first (shared with C04.7)
 	c04Replace(a, tf, ro.API["AddWith"], "C09.4")
 	c12Acquire(a, tf, ro.API["AddWith"])
